@@ -885,13 +885,35 @@ func (ex *Exec) indexLoops(body *ast.BlockStmt) {
 
 type modSet struct {
 	vars    map[types.Object]bool
-	heaps   bool // any heap-affecting construct
+	heaps   bool // some heap-affecting construct
+	all     bool // unknown extent: havoc every heap
+	names   map[string]bool // heap names that may be written
+	mem     bool            // element memories (Mem$*) may be written
+	ghosts  bool            // ghost locals/fields may be written (hooks)
+	events  map[string]bool // "kind:target" events that may occur in the body
+	dynCall bool            // body calls through a function value (anything may happen)
 	globals map[string]bool
 }
 
 // modified computes what a loop body may assign.
 func (ex *Exec) modified(nodes ...ast.Node) *modSet {
-	ms := &modSet{vars: map[types.Object]bool{}, globals: map[string]bool{}}
+	ms := &modSet{vars: map[types.Object]bool{}, globals: map[string]bool{}, names: map[string]bool{}, events: map[string]bool{}}
+	fieldHeap := func(sel *ast.SelectorExpr) {
+		if si := ex.Info.Selections[sel]; si != nil && si.Kind() == types.FieldVal {
+			rt := si.Recv()
+			base, _ := derefType(rt)
+			// walk embedded path to the struct that owns the field
+			idx := si.Index()
+			for i := 0; i < len(idx)-1; i++ {
+				if st, ok := base.Underlying().(*types.Struct); ok {
+					base, _ = derefType(st.Field(idx[i]).Type())
+				}
+			}
+			ms.names[ex.fieldHeapName(base, sel.Sel.Name)] = true
+			return
+		}
+		ms.all = true
+	}
 	var visitLHS func(e ast.Expr)
 	visitLHS = func(e ast.Expr) {
 		switch l := ast.Unparen(e).(type) {
@@ -913,16 +935,20 @@ func (ex *Exec) modified(nodes ...ast.Node) *modSet {
 				}
 			}
 			ms.heaps = true
+			ms.mem = true
 		case *ast.SelectorExpr:
 			ms.heaps = true
 			// struct value in a local
 			if t := ex.typeOf(l.X); t != nil {
 				if _, isPtr := t.Underlying().(*types.Pointer); !isPtr {
 					visitLHS(l.X)
+					return
 				}
 			}
+			fieldHeap(l)
 		case *ast.StarExpr:
 			ms.heaps = true
+			ms.all = true
 		}
 	}
 	for _, n := range nodes {
@@ -946,17 +972,136 @@ func (ex *Exec) modified(nodes ...ast.Node) *modSet {
 				}
 			case *ast.CallExpr:
 				ms.heaps = true
-			case *ast.SendStmt, *ast.GoStmt:
+				ms.ghosts = true
+				ex.callMods(x, ms)
+				if fn := ex.calleeOf(x); fn != nil {
+					for _, k := range hookKeys(fn) {
+						ms.events["call:"+k] = true
+					}
+				} else if tv, ok := ex.Info.Types[x.Fun]; ok && !tv.IsType() {
+					if id, isID := ast.Unparen(x.Fun).(*ast.Ident); !isID || func() bool { _, b := ex.Info.ObjectOf(id).(*types.Builtin); return !b }() {
+						ms.dynCall = true
+					}
+				}
+			case *ast.SendStmt:
 				ms.heaps = true
+				ms.ghosts = true
+				ms.events["send:"+strings.TrimSuffix(exprText(x.Chan), "()")] = true
+			case *ast.GoStmt:
+				ms.heaps = true
+				ms.ghosts = true
+				ms.dynCall = true
+			case *ast.DeferStmt:
+				ms.dynCall = true
 			case *ast.UnaryExpr:
 				if x.Op == token.ARROW {
 					ms.heaps = true
+					ms.ghosts = true
+					ms.names["CtxDone"] = true
+					ms.events["recv:"+strings.TrimSuffix(exprText(x.X), "()")] = true
 				}
 			}
 			return true
 		})
 	}
 	return ms
+}
+
+// ghostsWrittenBy returns the ghost locals that hooks firing inside a loop
+// body may assign (nil = unknown, havoc all).
+func (ex *Exec) ghostsWrittenBy(ms *modSet) map[string]bool {
+	if ex.FSpec == nil {
+		return map[string]bool{}
+	}
+	if ms.dynCall {
+		return nil
+	}
+	out := map[string]bool{}
+	for _, h := range ex.FSpec.Hooks {
+		fire := false
+		switch h.Kind {
+		case "call", "enter":
+			fire = ms.events["call:"+h.Target]
+		case "send", "recv":
+			fire = ms.events[h.Kind+":"+strings.TrimSuffix(h.Target, "()")]
+		case "exit":
+			fire = false
+		default:
+			fire = true // assign / anchors / go / close: not tracked precisely
+		}
+		if !fire {
+			continue
+		}
+		stmts, err := parseGhostStmts(h.Body)
+		if err != nil {
+			return nil
+		}
+		for _, s := range stmts {
+			ast.Inspect(s, func(x ast.Node) bool {
+				switch a := x.(type) {
+				case *ast.AssignStmt:
+					for _, l := range a.Lhs {
+						if id, ok := l.(*ast.Ident); ok {
+							out[id.Name] = true
+						}
+					}
+				case *ast.IncDecStmt:
+					if id, ok := a.X.(*ast.Ident); ok {
+						out[id.Name] = true
+					}
+				}
+				return true
+			})
+		}
+	}
+	return out
+}
+
+// callMods records which heaps a call may write, consistently with the frame
+// assumptions made at call sites.
+func (ex *Exec) callMods(c *ast.CallExpr, ms *modSet) {
+	fun := ast.Unparen(c.Fun)
+	if id, ok := fun.(*ast.Ident); ok {
+		if b, ok := ex.Info.ObjectOf(id).(*types.Builtin); ok {
+			switch b.Name() {
+			case "append", "copy", "make", "new":
+				ms.mem = true
+			}
+			return
+		}
+	}
+	if tv, ok := ex.Info.Types[c.Fun]; ok && tv.IsType() {
+		ms.mem = true // conversions may allocate
+		return
+	}
+	fn := ex.calleeOf(c)
+	if fn == nil {
+		return
+	}
+	key := calleeKey(fn)
+	switch key {
+	case "sync.Mutex.Lock", "sync.RWMutex.Lock", "sync.RWMutex.RLock", "sync.Mutex.Unlock", "sync.RWMutex.Unlock", "sync.RWMutex.RUnlock":
+		ms.all = true
+		return
+	case "context.Context.Err", "context.Cause", "context.Context.Done":
+		ms.names["CtxDone"] = true
+		return
+	}
+	if libWriters[key] {
+		ms.mem = true
+	}
+	if _, ok := libModels[key]; ok {
+		ms.mem = true
+	}
+	if fs, _ := ex.lookupFuncSpec(fn); fs != nil {
+		for _, m := range fs.Modifies {
+			if strings.HasPrefix(m, "Mem(") {
+				ms.mem = true
+			} else {
+				ms.all = true
+			}
+		}
+	}
 }
 
 // havocLoop havocs everything the loop may modify.
@@ -996,7 +1141,21 @@ func (ex *Exec) havocLoop(st *State, ms *modSet) {
 			if strings.HasPrefix(k, "G$") {
 				continue
 			}
-			ex.havocHeap(st, k)
+			isGhostField := false
+			if ms.ghosts && strings.HasPrefix(k, "H$") {
+				for _, u := range ex.W.Units {
+					for _, ts := range u.TSpecs {
+						for _, g := range ts.Ghosts {
+							if strings.HasSuffix(k, "."+ts.Name+"$"+g.Name) {
+								isGhostField = true
+							}
+						}
+					}
+				}
+			}
+			if ms.all || ms.names[k] || isGhostField || (ms.mem && (strings.HasPrefix(k, "Mem$") || strings.HasPrefix(k, "Map$") || strings.HasPrefix(k, "Box$"))) {
+				ex.havocHeap(st, k)
+			}
 		}
 		// ghost locals may be changed by hooks
 		var gn []string
@@ -1004,9 +1163,13 @@ func (ex *Exec) havocLoop(st *State, ms *modSet) {
 			gn = append(gn, k)
 		}
 		sort.Strings(gn)
+		mayWrite := ex.ghostsWrittenBy(ms)
 		for _, k := range gn {
 			g := st.ghost[k]
-			if ex.ghostConst[k] {
+			if ex.ghostConst[k] || !ms.ghosts {
+				continue
+			}
+			if mayWrite != nil && !mayWrite[k] {
 				continue
 			}
 			st.ghost[k] = &Val{T: g.T, Term: ex.fresh("ghost."+k, g.Term.S)}
